@@ -177,6 +177,98 @@ def judge_node(st: Stats, hist: History, specs: List[Dict[str, Any]], sch: Seque
                    "windows": (len(dates) + 1) * (len(dates) + 2) // 2}, cap=1)
 
 
+# ------------------------------------------------------------------------------------------------------------------
+# end-to-end slice: an [accounting_methods] schedule in the CONFIG FILE x from-dates, through the real command line. The schedule
+# reaches the engine through Configuration, which also knows the from-date - a path the compute seam above does not take.
+
+SECTIONS = ({2010: "fifo", 2021: "lifo"}, {2010: "lifo", 2021: "hifo"}, {2010: "hifo", 2020: "fifo", 2022: "lifo"}, {2010: "lofo", 2021: "fifo"})
+
+
+def cli_shapes() -> Dict[str, Any]:
+    from rp2verif import clishapes as CS
+
+    shapes = {k: v for k, v in CS.shapes().items() if k in ("single", "multi", "many_lots", "sparse_years")}
+    # two lots, each partly sold in 2020 and in 2021: what is left for 2021 depends on the method of 2020
+    shapes["two_lots_two_years"] = {"B1": [
+        ("in", [CS._in("B1", "2019-05-01 10:00:00+00:00", "2", "100", uid="lotA"), CS._in("B1", "2019-06-01 10:00:00+00:00", "2", "300", uid="lotB")]),
+        ("out", [CS._out("B1", "2020-04-01 10:00:00+00:00", "1", "400", uid="sale2020"), CS._out("B1", "2021-04-01 10:00:00+00:00", "1.5", "500", uid="sale2021"),
+                 CS._out("B1", "2022-04-01 10:00:00+00:00", "1", "600", uid="sale2022")]),
+    ]}
+    return shapes
+
+
+def cli_worker(task: Tuple[str, int]) -> Stats:
+    import os
+    from datetime import datetime
+
+    from rp2verif import clishapes as CS
+    from rp2verif import odsread as O
+    from rp2verif.seams import cli
+
+    name, si = task
+    shape = cli_shapes()[name]
+    section = SECTIONS[si]
+    st = Stats()
+    ws = cli.Workspace(f"c10-{name}-{si}")
+
+    def detail_rows(out_dir: str) -> Optional[Dict[str, List[Tuple[Any, ...]]]]:
+        path = os.path.join(out_dir, "mixed_rp2_full_report.ods")
+        if not os.path.exists(path):
+            return None
+        sheets = O.read(path)
+        res: Dict[str, List[Tuple[Any, ...]]] = {}
+        for asset in sorted(shape):
+            rows = sheets.get(f"{asset} Tax") or []
+            hits = O.find_rows(rows, "Gain / Loss Detail")
+            if len(hits) != 1:
+                return None
+            _s, idx = O.table_after(rows, hits[0], key_col=1)
+            res[asset] = [(O.plain(O.cell(rows, i, 5)), O.plain(O.cell(rows, i, 10)), O.plain(O.cell(rows, i, 18)) or None, O.num(O.cell(rows, i, 0)), O.num(O.cell(rows, i, 8)),
+                           O.num(O.cell(rows, i, 16)) if not O.is_blank(O.plain(O.cell(rows, i, 16))) else None, O.num(O.cell(rows, i, 3)), O.plain(O.cell(rows, i, 4))) for i in idx]
+        return res
+
+    try:
+        ini = ws.write("config.ini", CS.ini_for(shape, methods=section))
+        ods = cli.write_ods(os.path.join(ws.inp, "input.ods"), CS.matrices(shape))
+        res = cli.run_forked("us", ["-o", ws.out, ini, ods], ws.cwd, ws.out)
+        base = {"cli": True, "shape": name, "section": {str(k): v for k, v in section.items()}}
+        full = detail_rows(ws.out) if res.exit == 0 else None
+        st.inc("cli_runs")
+        if full is None:
+            st.violation(dict(base, from_date=None, signature="C10 cli: unfiltered run failed", what=f"rp2_us [accounting_methods]={section} on '{name}': {res.brief()}"))
+            return st
+        years = sorted({d.year for d in CS.event_dates(shape)})
+        froms = sorted({date(y, 1, 1) for y in years} | {date(y, 7, 1) for y in years})
+        for fd in froms:
+            st.inc("cli_runs")
+            st.inc("evaluations")
+            ws.clean_out()
+            r2 = cli.run_forked("us", ["-o", ws.out, "-f", fd.isoformat(), ini, ods], ws.cwd, ws.out)
+            got = detail_rows(ws.out) if r2.exit == 0 else None
+            tag = f"rp2_us -f {fd} [accounting_methods]={section} on '{name}'"
+            if got is None:
+                st.violation(dict(base, from_date=str(fd), signature="C10 cli: windowed run failed", what=f"{tag}: {r2.brief()}"))
+                continue
+            for asset in sorted(shape):
+                want = [r for r in full[asset] if datetime.fromisoformat(r[0]).date() >= fd]
+                if want and len(want) < len(full[asset]):
+                    st.inc("distinct_nontrivial")
+                if got[asset] != want:
+                    diff = next((f"{g} vs unfiltered {w}" for g, w in zip(got[asset], want) if g != w), f"{len(got[asset])} rows vs {len(want)}")
+                    st.violation(dict(base, from_date=str(fd), signature="C10 cli: figures shown with -f differ from the unfiltered run",
+                                      what=f"{tag}: {asset} Gain/Loss Detail (timestamp, event id, lot id, amount, proceeds, cost, gain, term): {diff}"))
+                    break
+    finally:
+        ws.remove()
+    return st
+
+
+def cli_init() -> None:
+    from rp2verif.seams import cli
+
+    cli.preload()
+
+
 def variants(hist: History, row_order: str, tz: bool) -> List[Tuple[History, List[Dict[str, Any]], str]]:
     out = []
     specs = H.materialize(hist, row_order=row_order)
@@ -222,7 +314,17 @@ def plan(tier: str) -> List[Dict[str, Any]]:
 def main(tier: str, budget_s: Optional[float] = None) -> int:
     t0 = time.time()
     deadline = t0 + (budget_s or (240 if tier == "quick" else 3300))
+    cli_tasks = [(n, i) for n in sorted(cli_shapes()) for i in range(len(SECTIONS))]
+    cres, cdone = common.pmap(cli_worker, cli_tasks, deadline=deadline, init=cli_init)  # first: this process is rp2-free
     total, info, complete = run_phases(plan(tier), worker, FIRST, SYMBOLS, EXTRA, deadline)
+    ctotal = Stats()
+    for r in cres:
+        if r is not None:
+            ctotal.merge(r)
+    total.merge(ctotal)
+    complete = complete and cdone == len(cli_tasks)
+    info.append({"phase": "end-to-end: [accounting_methods] schedule in the config file x every Jan 1 / Jul 1 from-date, real CLI, detail rows vs the unfiltered run",
+                 "inputs": sorted(cli_shapes()), "schedules": [str(x) for x in SECTIONS], "cli_runs": ctotal.get("cli_runs"), "windowed_runs_compared": ctotal.get("evaluations")})
     new, matched = common.report(PROP, total.violations)
     coverage = {
         "evaluations": total.get("evaluations"),
@@ -261,6 +363,17 @@ def replay(path: str) -> int:
 
     with open(path, encoding="utf-8") as f:
         p = json.load(f)
+    if p.get("cli"):
+        import multiprocessing as mp
+
+        si = next(i for i, sec in enumerate(SECTIONS) if {str(k): v for k, v in sec.items()} == p["section"])
+        with mp.get_context("fork").Pool(1, initializer=cli_init) as pool:
+            st = pool.apply(cli_worker, ((p["shape"], si),))
+        if st.violations:
+            print(f"VIOLATION property={PROP} replay={path}\n  {st.violations[0]['what']}")
+            return 1
+        print(f"replay: {path}: property {PROP} holds on this case")
+        return 0
     fd = date.fromisoformat(p["from_date"]) if p.get("from_date") else None
     td = date.fromisoformat(p["to_date"]) if p.get("to_date") else None
     st = Stats()
